@@ -2615,3 +2615,158 @@ func c02KeyCharacters(c *Ctx, p *Prog) {
 			fmt.Sprintf("inside a key the character %q is %s, but unicode.IsSpace/IsUpper say it must be %s: a foreign line such as `progress\\rdone: 100%%` then becomes a configuration key on every following result (or a legitimate key is ignored)", r, map[bool]string{true: "accepted", false: "refused"}[sample.refuse], map[bool]string{true: "refused", false: "accepted"}[sample.refuse]))
 	}
 }
+
+// c06ApplyFilters (C06/R20): a result the filter rejects is left without measurements: in Match.Apply every return
+// that is not the constant true follows a store to the result's Values.
+func c06ApplyFilters(c *Ctx, p *Prog) {
+	const R = "C06/R20"
+	fn := p.Method("benchproc", "Match", "Apply")
+	valuesF := p.Field("benchfmt", "Result", "Values")
+	if fn == nil || valuesF == nil {
+		c.Undecided(R, "anchor:Match.Apply/Result.Values", "", "not found")
+		return
+	}
+	stores := blocksWhere(fn, func(in ssa.Instruction) bool {
+		st, ok := in.(*ssa.Store)
+		if !ok {
+			return false
+		}
+		f, _ := fieldOfAddr(st.Addr)
+		return f == valuesF
+	})
+	reach := reachFrom(fn.Blocks[0], stores)
+	bad, n := "", 0
+	for _, b := range fn.Blocks {
+		ret, ok := b.Instrs[len(b.Instrs)-1].(*ssa.Return)
+		if !ok || len(ret.Results) != 1 {
+			continue
+		}
+		if k, ok := ret.Results[0].(*ssa.Const); ok && k.Value != nil && k.Value.String() == "true" {
+			continue
+		}
+		n++
+		if reach[b] {
+			bad = p.pos(ret.Pos())
+		}
+	}
+	c.Check(bad == "" && len(stores) > 0, R, "Apply:a rejecting answer follows the filtering of Values", p.pos(fn.Pos()), fmt.Sprintf("%d returns other than true, each after a store to Values", n),
+		"Match.Apply can answer something other than true (at "+bad+") without having touched the result's Values: a result the filter rejects as a whole keeps all its measurements, contrary to Apply's contract")
+	c.Floor(R, "returns of Match.Apply other than true", n, 1)
+}
+
+// c16WarnBeforeCell (C16/R16): the CSV warning names the cell about to be written: the label is taken from the
+// length of the row under construction, so every call of the warning closure in ToCSV is followed — in its block, or
+// on some path before the loop goes round — by an append to that row.
+func c16WarnBeforeCell(c *Ctx, p *Prog) {
+	const R = "C16/R16"
+	fn := p.Method(btabRel, "Table", "ToCSV")
+	if fn == nil {
+		c.Undecided(R, "anchor:Table.ToCSV", "", "not found")
+		return
+	}
+	// the warning closure: the one that prints to the warnings writer; the row: the captured []string it measures
+	var warn *ssa.Function
+	for _, a := range fn.AnonFuncs {
+		if len(callsIn(a, "fmt", "", "Fprintf")) > 0 {
+			warn = a
+		}
+	}
+	if warn == nil {
+		c.Undecided(R, "ToCSV:warning closure", p.pos(fn.Pos()), "not found")
+		return
+	}
+	var rowCell *ssa.Alloc
+	for _, in := range allInstrs(fn) {
+		mc, ok := in.(*ssa.MakeClosure)
+		if !ok || mc.Fn != ssa.Value(warn) {
+			continue
+		}
+		for _, bnd := range mc.Bindings {
+			if al, ok := bnd.(*ssa.Alloc); ok {
+				if pt, ok := al.Type().(*types.Pointer); ok {
+					if sl, ok := pt.Elem().Underlying().(*types.Slice); ok && isString(sl.Elem()) {
+						rowCell = al
+					}
+				}
+			}
+		}
+	}
+	if rowCell == nil {
+		c.Undecided(R, "ToCSV:row", p.pos(fn.Pos()), "the row the warning closure measures was not found")
+		return
+	}
+	isAppend := func(in ssa.Instruction) bool {
+		st, ok := in.(*ssa.Store)
+		if !ok || st.Addr != ssa.Value(rowCell) {
+			return false
+		}
+		call, ok := st.Val.(*ssa.Call)
+		if !ok {
+			return false
+		}
+		bi, ok := call.Call.Value.(*ssa.Builtin)
+		return ok && bi.Name() == "append"
+	}
+	appends := blocksWhere(fn, isAppend)
+	loops := naturalLoops(fn)
+	n := 0
+	eachInstr(fn, func(b *ssa.BasicBlock, in ssa.Instruction) {
+		call, ok := in.(*ssa.Call)
+		if !ok {
+			return
+		}
+		// a call of the closure value
+		isWarn := false
+		if mc, ok := call.Call.Value.(*ssa.MakeClosure); ok && mc.Fn == ssa.Value(warn) {
+			isWarn = true
+		}
+		if ld, ok := call.Call.Value.(*ssa.UnOp); ok {
+			if al, ok := ld.X.(*ssa.Alloc); ok {
+				for _, st := range storesInto(al) {
+					if mc, ok := st.Val.(*ssa.MakeClosure); ok && mc.Fn == ssa.Value(warn) {
+						isWarn = true
+					}
+				}
+			}
+		}
+		if !isWarn {
+			return
+		}
+		n++
+		good := false
+		after := false
+		for _, in2 := range b.Instrs {
+			if in2 == in {
+				after = true
+				continue
+			}
+			if after && isAppend(in2) {
+				good = true
+			}
+		}
+		if !good {
+			// every path to the next iteration passes an append
+			var inner *loopInfo
+			for _, lp := range loops {
+				if lp.Blocks[b] && (inner == nil || len(lp.Blocks) < len(inner.Blocks)) {
+					inner = lp
+				}
+			}
+			// (the cell may turn out empty — a summary that is not there — so an append need only be possible before the
+			// loop goes round; called after the cell's appends, none is)
+			if inner != nil {
+				stop := map[*ssa.BasicBlock]bool{inner.Header: true}
+				for _, s := range b.Succs {
+					for r := range reachFrom(s, stop) {
+						if appends[r] && inner.Blocks[r] {
+							good = true
+						}
+					}
+				}
+			}
+		}
+		c.Check(good, R, fmt.Sprintf("ToCSV:warning#%d names the cell about to be written", n), p.pos(call.Pos()), "followed by the append of that cell",
+			"the warning closure is called after the cell it is about was already appended to the row: the spreadsheet label it prints is taken from the row's length, so the CSV warning points two columns to the right of (or past) the cell the text output marks")
+	})
+	c.Floor(R, "calls of the warning closure in ToCSV", n, 2)
+}
